@@ -444,10 +444,11 @@ impl BsUnit {
     /// * `pc`: program counter represented by global address.
     pub fn find_place_by_pc(&self, pc: GlobalAddress) -> Option<PlaceDescriptor<'_>> {
         let pc = u64::from(pc);
+        // the last row with an address less or equal to pc
         let pos = self
             .lines
-            .binary_search_by_key(&pc, |line| line.address)
-            .unwrap_or_else(|p| p.saturating_sub(1));
+            .partition_point(|line| line.address <= pc)
+            .saturating_sub(1);
 
         self.find_place_by_idx(pos)
     }
